@@ -569,6 +569,24 @@ def solve_rule(ctx, rid="R4.E1"):
             for k, nn in enumerate(right):
                 if not same(u[nn * dim], 2 * v + (w if k == 0 else 0)):
                     return f"{elem}: after a further condition was added, ux of node {nn} is {u[nn * dim]}"
+            # the conditions are cleared and replaced by ANOTHER set with as many dofs and the same sum of dof numbers
+            D1 = sorted(nn * dim + c for nn in left for c in range(dim))
+            D2 = None
+            for a_ in D1:
+                for b_ in D1:
+                    if a_ < b_ and a_ + 1 not in D1 and b_ - 1 not in D1 and a_ + 1 != b_ - 1 and D2 is None:
+                        D2 = sorted((set(D1) - {a_, b_}) | {a_ + 1, b_ - 1})
+            if D2 is not None:
+                for dofs in (D1, D2):
+                    W.call(simu, "Bc_Init")
+                    vals = {dd: Poly.var(f"s{dd}") for dd in dofs}
+                    for dd in dofs:
+                        W.call(simu, "add_dirichlet", iarr([dd // dim]), [vals[dd]], ["xyz"[dd % dim]])
+                    W.call(simu, "add_surfLoad", iarr(right), [Poly.var("p")], ["x"])
+                    u = polys(W.call(simu, "Solve"))
+                    for dd in dofs:
+                        if not same(u[dd], vals[dd]):
+                            return f"{elem}: conditions replaced by the set of dofs {dofs} (after {D1}: as many dofs, the same sum of dof numbers): dof {dd} holds {u[dd]}, prescribed {vals[dd]}"
             return None
 
         return (f"duplicate and incremental conditions {elem}", solve, thunk)
